@@ -84,6 +84,25 @@ C.update({
    note="Trusted: the lab's server-side planner and responder (self-tested with two sabotage modes), tiny_http. Assumes distinct fetch ranges have distinct URLs. Interleavings finer than HTTP-response order and cache eviction are not explored.", ref="4/C17"),
 })
 
+
+# ---- later extensions (kept as appended sentences so that the table above stays readable)
+C["C14"]["text"]+=" Family F9 (words of up to 5/6 blocks of stored atoms re-uploaded over one stored xorb under the fragmentation-only configurations K9/K10 and K3) reaches refused dedup ranges whose later chunks are already pending; on an unchanged re-upload withheld must EQUAL new (bytes and chunks)."
+C["C03"]["text"]+=" The empty content is judged like every other (its salt-independence is a recorded known finding)."
+C["C04"]["text"]+=" A last call carrying is_final=true must itself flush: finish() afterwards must return nothing."
+C["C05"]["text"]+=" One collection of 65542 shards registered in a fixed order (chunks at the same entry position in shards k and 65536+k) is queried as well."
+C["C06"]["text"]+=" Family D: every list of <= 4/5 entries over 9 leaves sharing their first 64-bit word (with each other, the zero hash, a real chunk hash). HashedWrite also over a writer that answers short (1 byte / all but one) or Interrupted: every script over its first 4/5 calls with <= 2/3 such answers."
+C["C06"]["tech"]+="; deviation-bounded enumeration of the underlying writer's answers (short write, Interrupted)"
+C["C08"]["text"]+=" Valid xorbs of 1000..8192 chunks around the parser's 1152-chunk batch and its multiples must be accepted by both validators; crafted well-formed objects whose chunks unpack to 2^32 bytes (with and without footer) must be rejected without a panic."
+C["C09"]["text"]+=" Every shard of up to 12 records is also built with every record added twice, and with a different record first replaced under each key: same bytes, shard_file_size() = serialized length."
+C["C10"]["text"]+=" The family holds one file under three segmentations x all flag sets (acceptable merged records = one side's segments with that side's verification); thresholds include u64::MAX; the size estimate of in-memory union/difference results must equal the serialized size."
+C["C10"]["tech"]=C["C10"]["tech"].replace("4 thresholds","5 thresholds incl. u64::MAX")
+C["C12"]["text"]+=" Damaged directories are also re-opened with two smaller capacities (files left untracked by the scan) and the base items put again before everything is read."
+C["C13"]["text"]+=" Harnesses include an evicting put with two victims in different key directories racing a put into one of those directories."
+C["C16"]["text"]+=" Two drivers: the in-repo caller's (stops at the first Err) and a persisting one for the inject-persist scenarios (abandons only the file whose operation failed, goes on to finalize), under which the shard-after-its-xorbs clause is judged as well."
+C["C16"]["note"]=C["C16"]["note"].replace("the driver stops at the first Err like in-repo callers;","two drivers (stop at the first Err like in-repo callers / abandon only the failed file);")
+C["C17"]["text"]+=" Plans with two fetch ranges of one xorb are also answered by a server that hands out ONE url per xorb (ranges differ in url_range only)."
+C["C17"]["note"]=C["C17"]["note"].replace(" Assumes distinct fetch ranges have distinct URLs.","")
+
 checks=[]
 for p in props:
     if p in C:
